@@ -2068,7 +2068,7 @@ class Interp:
         size = sum(1 for _ in ast.walk(fnode))
         if size > 450:
             return False
-        return not any(isinstance(n, (ast.Yield, ast.YieldFrom, ast.While, ast.Global, ast.Nonlocal)) for n in ast.walk(fnode))
+        return not any(isinstance(n, (ast.Yield, ast.YieldFrom, ast.Global, ast.Nonlocal)) for n in ast.walk(fnode))
 
     def construct_dataclass(self, cref, args, kwargs, node):
         fields, methods, props = extract.class_members(cref.node)
